@@ -197,9 +197,7 @@ class GC(FileStorageFormatter):
         """Return 1 if revision of `oid` at `pos` is reachable."""
 
         rpos = self.reachable.get(oid)
-        if rpos is None:
-            return 0
-        if rpos == pos:
+        if rpos is not None and rpos == pos:
             return 1
         return pos in self.reach_ex.get(oid, [])
 
@@ -316,13 +314,17 @@ class GC(FileStorageFormatter):
                 self.checkData(th, tpos, dh, pos)
 
                 if dh.back and dh.back < self.packpos:
-                    if dh.oid in self.reachable:
-                        L = self.reach_ex.setdefault(dh.oid, [])
-                        if dh.back not in L:
-                            L.append(dh.back)
-                            extra_roots.append(dh.back)
-                    else:
-                        self.reachable[dh.oid] = dh.back
+                    # Keep the revision pointed back to, and (through
+                    # extra_roots) what it references -- also when the
+                    # object was not reachable at the pack time: the
+                    # record that points back makes it current again.
+                    # `reachable` is left to findReachableAtPacktime, so
+                    # that the revision current at the pack time is still
+                    # kept if the object turns out to be reachable then.
+                    L = self.reach_ex.setdefault(dh.oid, [])
+                    if dh.back not in L:
+                        L.append(dh.back)
+                        extra_roots.append(dh.back)
 
                 pos += dh.recordlen()
 
@@ -334,7 +336,11 @@ class GC(FileStorageFormatter):
             pos += 8
 
         for pos in extra_roots:
-            refs = self.findrefs(pos)
+            # An old revision may refer to objects that had no record at
+            # the pack time (created, or created again, later): there is
+            # nothing to mark for them before the pack time.
+            refs = [oid for oid in self.findrefs(pos)
+                    if oid in self.oid2curpos]
             self.findReachableAtPacktime(refs)
 
     def findrefs(self, pos):
